@@ -9,7 +9,7 @@ from .doc_command import ArgReqType
 from ducklingscript.compiler.pre_line import PreLine
 from ducklingscript.compiler.stack_return import CompiledReturn
 from .base_command import BaseCommand
-from ...errors import InvalidArgumentsError
+from ...errors import InvalidArgumentsError, MismatchError
 from ...tokenization import Tokenizer, token_return_types
 
 
@@ -189,7 +189,18 @@ class SimpleCommand(BaseCommand):
         """
         if arg is None:
             return f"{commandName.cont_upper()}"
-        return f"{commandName.content.upper()} {arg.content}"
+        return f"{commandName.content.upper()} {self.text_of(arg.content)}"
+
+    def text_of(self, value: Any) -> str:
+        """
+        The value as it is written
+        into the output.
+        """
+        try:
+            return str(value)
+        except ValueError:
+            # an integer beyond the interpreter's digit limit
+            raise MismatchError(self.stack, "The number is too large to be written out.")
 
     def evaluate_args(self, all_args: Arguments):
         # all_args.tokenize_all(self.stack, self.env)
@@ -197,7 +208,7 @@ class SimpleCommand(BaseCommand):
             arg.tokenize(self.stack, self.env)
 
         if self.arg_type == str or isinstance(self.arg_type, str):
-            all_args = all_args.map_args(lambda i: str(i))
+            all_args = all_args.map_args(lambda i: self.text_of(i))
         return all_args
 
     def listify_args(
